@@ -26,6 +26,7 @@ import (
 	"tunnox-core/internal/core/storage/memory"
 	"tunnox-core/internal/core/types"
 	"tunnox-core/internal/packet"
+	"tunnox-core/internal/protocol/adapter"
 	"tunnox-core/internal/stream"
 )
 
@@ -87,8 +88,66 @@ func (f *fakeConn) SetDeadline(time.Time) error      { return nil }
 func (f *fakeConn) SetReadDeadline(time.Time) error  { return nil }
 func (f *fakeConn) SetWriteDeadline(time.Time) error { return nil }
 
+// hostileConn: a finite hostile byte stream delivered in chunks, then EOF; writes are swallowed
+type hostileConn struct {
+	chunkReader
+	ip     string
+	closed int32
+}
+
+func (h *hostileConn) Write(p []byte) (int, error) { return len(p), nil }
+func (h *hostileConn) Close() error                { atomic.AddInt32(&h.closed, 1); return nil }
+func (h *hostileConn) LocalAddr() net.Addr         { return &net.TCPAddr{IP: net.ParseIP("127.0.0.1"), Port: 7000} }
+func (h *hostileConn) RemoteAddr() net.Addr        { return &net.TCPAddr{IP: net.ParseIP(h.ip), Port: 40001} }
+func (h *hostileConn) SetDeadline(time.Time) error      { return nil }
+func (h *hostileConn) SetReadDeadline(time.Time) error  { return nil }
+func (h *hostileConn) SetWriteDeadline(time.Time) error { return nil }
+
+// runLoop: the real per-connection read loop of the adapter (AcceptConnection -> ReadPacket -> HandlePacket -> ...
+// -> cleanup) fed with a finite hostile stream: it must return, not panic, close the transport and leave the
+// session's connection table as it found it.
+func runLoop(wire []byte, cuts []int, out *caseOut) {
+	connSeq++
+	hc := &hostileConn{chunkReader: chunkReader{data: wire, cuts: append([]int(nil), cuts...)}, ip: fmt.Sprintf("192.0.2.%d", connSeq%250+1)}
+	before := fx.Session.GetActiveConnections()
+	ta := adapter.NewTcpAdapter(fx.Ctx, fx.Session)
+	done := make(chan string, 1)
+	go func() {
+		defer func() {
+			if r := recover(); r != nil {
+				done <- fmt.Sprintf("panic: %v\n%s", r, string(debug.Stack()))
+				return
+			}
+			done <- ""
+		}()
+		ta.VerifHandleConnection(hc)
+	}()
+	select {
+	case p := <-done:
+		if p != "" {
+			out.Panicked = "connection read loop: " + firstLines(p, 14)
+		}
+	case <-time.After(20 * time.Second):
+		out.TimedOut = true
+		out.PropMsg = "the adapter's connection read loop did not return on a finite stream within 20s"
+		return
+	}
+	// asynchronous work spawned by handlers (config push etc.) may still touch the connection briefly
+	deadline := time.Now().Add(2 * time.Second)
+	for fx.Session.GetActiveConnections() > before && time.Now().Before(deadline) {
+		time.Sleep(5 * time.Millisecond)
+	}
+	if after := fx.Session.GetActiveConnections(); after > before && out.Panicked == "" {
+		out.PropOK, out.PropMsg = false, fmt.Sprintf("connection table grew from %d to %d after the hostile connection ended (not cleaned up)", before, after)
+	}
+	if atomic.LoadInt32(&hc.closed) == 0 && out.Panicked == "" && out.PropOK {
+		// a connection switched to stream mode is handed over and closed by the tunnel; anything else must be closed here
+		out.Dispatched = -1
+	}
+}
+
 type caseIn struct {
-	Mode string `json:"mode"` // stream | bomb | dispatch
+	Mode string `json:"mode"` // stream | bomb | dispatch | loop
 	Wire string `json:"wire"`
 	Cuts []int  `json:"cuts"`
 	// bomb: a single compressed packet whose body inflates to Inflated bytes of Fill
@@ -339,6 +398,10 @@ func runCase(raw json.RawMessage) interface{} {
 		// follow with a small valid packet to observe alignment after the bomb
 		wire = append(wire, 0x20, 0, 0, 0, 2, 0x41, 0x42)
 		runStream(wire, c.Cuts, false, false, out)
+		out.WireLen = len(wire)
+	case "loop":
+		wire := unhx(c.Wire)
+		runLoop(wire, c.Cuts, out)
 		out.WireLen = len(wire)
 	case "dispatch":
 		tp := &packet.TransferPacket{PacketType: packet.Type(c.Ty), Payload: unhx(c.Payload), CommandPacket: c.Cmd}
